@@ -694,7 +694,7 @@ where
     /// subscription in the table.
     #[cfg(rs_matter_verif)]
     pub fn verif_subscriptions(&self) -> std::vec::Vec<(u32, u8, u64, u16)> {
-        self.state.subscriptions.verif_snapshot()
+        self.state.subscriptions.verif_fabric_view()
     }
 
     /// Verification hook: the first phase of one iteration of the reporter loop (removal of the
